@@ -6,6 +6,7 @@ console of lean/TbotVerif/Model/Board.lean (`stamp`, `insertPiece`, `react`): th
 Everything that happens at the transport boundary is appended, in order, to one trace of
 tokens in the wire syntax of the Lean side (`r/…`, `w/…`)."""
 import vclock
+import verbosity
 from tbot.machine.channel import channel as tch
 from mockio import Hang
 from wire import hx, opt
@@ -92,7 +93,7 @@ class ReactiveIO(tch.ChannelIO):
                 d = data[:n]
                 self.script[0] = [tick, data[n:]]
             self.trace.append(f"r/{n}/{opt(tt)}/{t0}/{t1}/{hx(d)}")
-            return d
+            return verbosity.through_debug_log(self, d)
 
         if not self.script:
             if tt is None:
